@@ -194,7 +194,7 @@ Definition ws_react_all (s : wsst rpc bytes) (acts : list (wsact rpc bytes)) : o
 Definition ws_predict (prev s : wsst rpc bytes) : wsobs :=
   mkWsObs (skipn (length (ws_log prev)) (ws_log s)) (match ws_rd s with Some _ => true | None => false end).
 Definition wsobs_eqb (a b : wsobs) : bool :=
-  list_eqb wsev_eqb (wo_events a) (wo_events b) && Bool.eqb (wo_rd a) (wo_rd b).
+  multiset_eqb wsev_eqb (wo_events a) (wo_events b) && Bool.eqb (wo_rd a) (wo_rd b).
 
 (* property on the observed history: the frames put on the wire (written
    envelopes and injected raw frames, in action order) and the results of the
